@@ -208,7 +208,7 @@ def translate(ctx):
     import cwrap2lean
     try:
         t = cwrap2lean.gen_lapack_safety()
-        cwrap2lean.gen_lapack_driver(t)
+        cwrap2lean.gen_lapack_driver(t); cwrap2lean.gen_lapack_foot(t)
         ctx.table_lapack = t
     except Exception as e:
         return ['cwrap2lean (lapack.c): %s: %s' % (type(e).__name__, e)]
@@ -240,11 +240,16 @@ def lapack_probes(ctx, rng, gb):
     cid = 3 * 10**6
     lines, pyres = [], []
     dis = 0
+    corpus = {}
+    for i, c in enumerate(json.load(open(os.path.join(vlib.VERIF, 'tools', 'corr', 'c19_corpus.json')))['lapack']):
+        corpus.setdefault(c['routine'], []).append(dict(c, id=4 * 10**6 + i, order=[], valid=False))
     try:
         for name, sig in sorted(sigs.items()):
             r = byname.get(name)
-            for it in range(per):
-                case = gen_case(rng, name, sig, cid); cid += 1
+            mine = corpus.get(name, [])
+            for it in range(per + len(mine)):
+                if it < len(mine): case = mine[it]
+                else: case = gen_case(rng, name, sig, cid); cid += 1
                 res = w.run(case)
                 if res.startswith('crash') or res == 'worker-died':
                     # vectorised / strided kernels of the BLAS library read (never write) a little past the end of their operands; such a
